@@ -26,6 +26,7 @@ def processCase (cfg : ParseCfg) (c : Case) : Array String := Id.run do
   let mut out : Out := {}
   let mut hs : Array HState := Array.replicate 4 {}
   let mut sigs : Array (String × String × Nat) := #[]   -- (key, signature, op)
+  let mut epoch : Nat := 0                                -- changes with every create/def/free
   for o in c.ops do
     let h := o.h
     let st := getH hs h
@@ -36,6 +37,7 @@ def processCase (cfg : ParseCfg) (c : Case) : Array String := Id.run do
     else
     match o.cmd with
     | "create" =>
+      epoch := epoch + 1
       let ok := (o.first "create") == some ["ok"]
       out := out.v cid o.n "C15" "K" ok "create"
       hs := setH hs h { alive := true }
@@ -43,6 +45,7 @@ def processCase (cfg : ParseCfg) (c : Case) : Array String := Id.run do
       let (st', out') := judgeSet cid o st out
       hs := setH hs h st'; out := out'
     | "def" =>
+      epoch := epoch + 1
       let gid := toNat (o.args.getD 0 "0")
       match c.grams.find? (·.1 == gid) with
       | some (_, raw) =>
@@ -54,12 +57,13 @@ def processCase (cfg : ParseCfg) (c : Case) : Array String := Id.run do
       hs := setH hs h st'; out := out'
       -- cross-configuration key: same object definition, tokens, result-selecting flags
       if (kvInt ((o.first "parse").getD []) "rc") == 0 then
-        let key := s!"h{h} one={st.st.one != 0} cost={st.st.cost != 0} rec={st.st.recov != 0} match={st.st.rmatch} toks={o.args.drop 3}"
+        let key := s!"h{h} e{epoch} one={st.st.one != 0} cost={st.st.cost != 0} rec={st.st.recov != 0} match={st.st.rmatch} toks={o.args.drop 3}"
         sigs := sigs.push (key, parseSignature o o.nodeTable, o.n)
     | "err" =>
       let code := kvInt ((o.first "err").getD []) "code"
       out := out.v cid o.n "C15" "K" (code == st.lastErr) s!"error_code={code} expected={st.lastErr}"
     | "free" =>
+      epoch := epoch + 1
       hs := setH hs h {}
     | "freetree" =>
       match o.first "freetree" with
